@@ -603,6 +603,43 @@ pub fn udp_smoke(ctx: &Ctx) -> SubResult {
                 return Ok((0, u64::MAX - 2));
             }
         }
+        // The receive side of the real transport, used directly: every kind of message (the
+        // 4-byte BadCluster included) sent to a socket of the transport must come out of `recv`.
+        // Verdict without timing: the SYN sent *after* three BadCluster datagrams arrives, they
+        // do not (loopback UDP keeps the order and does not drop at this rate).
+        {
+            let sock_probe = std::net::UdpSocket::bind("127.0.0.1:0").map_err(|e| format!("bind: {e}"))?;
+            let sock_addr = sock_probe.local_addr().map_err(|e| e.to_string())?;
+            drop(sock_probe);
+            if let Ok(mut sock) = UdpTransport.open(sock_addr).await {
+                let bad = encode_msg(&WMsg::BadCluster, Blocking::Canonical).0;
+                let syn = encode_msg(&WMsg::Syn { cluster_id: "c".into(), digest: vec![] }, Blocking::Canonical).0;
+                for _ in 0..3 {
+                    let _ = probe.send_to(&bad, sock_addr).await;
+                }
+                let _ = probe.send_to(&syn, sock_addr).await;
+                let mut bad_seen = 0;
+                let mut syn_seen = false;
+                for _ in 0..4 {
+                    match tokio::time::timeout(Duration::from_secs(2), sock.recv()).await {
+                        Ok(Ok((_, m))) => match verif_describe(&m) {
+                            VerifMessage::BadCluster => bad_seen += 1,
+                            VerifMessage::Syn { .. } => {
+                                syn_seen = true;
+                                break;
+                            }
+                            _ => {}
+                        },
+                        _ => break,
+                    }
+                }
+                if syn_seen && bad_seen == 0 {
+                    let _ = tokio::time::timeout(Duration::from_secs(10), other_handle.shutdown()).await;
+                    let _ = tokio::time::timeout(Duration::from_secs(10), handle.shutdown()).await;
+                    return Ok((0, u64::MAX - 200_000));
+                }
+            }
+        }
         let mut x = splitmix64(seed);
         let mut garbage = 0u64;
         let (valid, _) = encode_msg(&WMsg::Syn { cluster_id: "c".into(), digest: vec![] }, Blocking::Canonical);
@@ -711,7 +748,11 @@ pub fn udp_smoke(ctx: &Ctx) -> SubResult {
             res.tally.evaluations += 1;
             res.tally.sum("garbage_datagrams", garbage);
             res.tally.sum("probes_answered", answered);
-            if answered == u64::MAX - 1 {
+            if answered == u64::MAX - 200_000 {
+                let f = Failure::new(format!("{}/udp-badcluster-not-received", ctx.prop), "three BadCluster datagrams (4 bytes each) followed by a SYN were sent to a socket of the real UDP transport: `recv` delivered the SYN but none of the BadCluster messages");
+                let path = write_replay(ctx, "udp-loopback-smoke", &serde_json::json!({"udp_smoke": true}), &f);
+                res.violations.push(Violation { signature: f.signature, message: f.message, replay_path: path });
+            } else if answered == u64::MAX - 1 {
                 let f = Failure::new(format!("{}/udp-clusters-leaked", ctx.prop), "two servers on the real UDP transport with different cluster ids (\"c\" and \"c\" followed by 65,536 more bytes), the second seeded at the first: after the run one of them lists the other as a member");
                 let path = write_replay(ctx, "udp-loopback-smoke", &serde_json::json!({"udp_smoke": true}), &f);
                 res.violations.push(Violation { signature: f.signature, message: f.message, replay_path: path });
